@@ -48,11 +48,15 @@ let parse_cfg mpr kopts res unk prx =
        | _ -> failwith "bad prx") in
   { c_mpr = (mpr <> "0"); c_known = known; c_res = rs; c_unk = u; c_prx = p;
     c_wk = (fun _ -> [zbyte.(87); zbyte.(75)]);
-    c_unesc_path = !esc_path; c_unesc_query = !esc_query }
+    c_unesc_path = !esc_path; c_unesc_query = !esc_query; c_async = [] }
+
+let hact_async s =
+  match String.split_on_char '/' s with [_; _; _; a] -> a <> "" && a.[0] = 'A' | _ -> false
 
 let parse_hact s =
   match String.split_on_char '/' s with
-  | [c; o; p] ->
+  | [_; _; _; a] when a <> "" && a.[0] = 'A' -> { hr_code = Z0; hr_opts = []; hr_payload = [] }
+  | [c; o; p] | [c; o; p; _] ->
       let opts = List.map (fun it ->
           match String.split_on_char '=' it with
           | [n; v] -> (zi n, bytes_of_tok v)
@@ -81,7 +85,7 @@ let show_payload diag p =
 
 let cur_cfg : dp_cfg ref = ref { c_mpr = false; c_known = []; c_res = []; c_unk = None; c_prx = None;
                                 c_wk = (fun _ -> []); c_unesc_path = dp_unescaped_path;
-                                c_unesc_query = dp_unescaped_query }
+                                c_unesc_query = dp_unescaped_query; c_async = [] }
 
 let show_ev e =
   match e with
@@ -97,16 +101,30 @@ let show_ev e =
 
 let show_out l = match l with [] -> "-" | _ -> String.concat " " (List.map show_ev l)
 
+(* several datagrams from the same peer ("hex+hex"): the session state carried from one to the
+   next is the set of tokens with a pending async entry (handler action /A) *)
 let with_case toks k =
   match toks with
   | [mpr; kopts; res; unk; prx; hact; loc; dg] ->
-      let cfg = parse_cfg mpr kopts res unk prx in
-      cur_cfg := cfg;
+      let cfg0 = parse_cfg mpr kopts res unk prx in
       let hr = parse_hact hact in
       let mc = (loc = "m") in
-      (match parse UDP (bytes_of_tok dg) with
-       | None -> "MALFORMED"
-       | Some req -> k cfg (fun _ -> hr) mc req)
+      let asy = hact_async hact in
+      let rec steps cfg parts =
+        match parts with
+        | [] -> []
+        | part :: tl ->
+            (match parse UDP (bytes_of_tok part) with
+             | None -> "MALFORMED" :: steps cfg tl
+             | Some req ->
+                 cur_cfg := cfg;
+                 let shown = k cfg (fun _ -> hr) mc req in
+                 let ran = List.exists (fun e -> match e with EvH _ -> true | _ -> false)
+                     (dp_serve cfg (fun _ -> hr) mc req) in
+                 let cfg' = if asy && ran && not (List.mem req.m_token cfg.c_async)
+                   then { cfg with c_async = req.m_token :: cfg.c_async } else cfg in
+                 shown :: steps cfg' tl) in
+      String.concat " | " (steps cfg0 (String.split_on_char '+' dg))
   | _ -> failwith "c10 args"
 
 let c10 toks = with_case toks (fun cfg h mc req -> show_out (dp_serve cfg h mc req))
